@@ -1,10 +1,11 @@
 """C16 — the state dump shows the true machine state, completely and parseably."""
 
-THEOREM_MODULES = ["Hcl.Theorems.C16", "Hcl.Tie.Banks"]
+THEOREM_MODULES = ["Hcl.Theorems.C16", "Hcl.Tie.Banks", "Hcl.Tie.PinsDump"]
 THEOREMS = {"Hcl.Tie.Banks": ["Tie.Banks.bankOrder"], "Hcl.Theorems.C16": ["C16_hex_roundtrip", "C16_hexpad_roundtrip", "hexDigits_roundtrip", "C16_memory_text", "C16_memory_tokens",
                                                                 "C16_memory_roundtrip", "C16_memory_rows", "C16_memory_reachable",
                                                                 "C16_bank_text", "C16_bank_registers", "C16_banks_all_printed", "Dump.printedBanks_perm",
-                                                                "Dump.memToks_spec", "Dump.walkKey_key", "Yo.load_sorted", "runN_mem_sorted"]}
+                                                                "Dump.memToks_spec", "Dump.walkKey_key", "Yo.load_sorted", "runN_mem_sorted"],
+            "Hcl.Tie.PinsDump": ["Tie.PinsDump.pinDumpMemory", "Tie.PinsDump.pinDumpBank", "Tie.PinsDump.pinDumpCustom", "Tie.PinsDump.pinDumpRegisters", "Tie.PinsDump.pinDumpY86", "Tie.PinsDump.pinNameStatus"]}
 
 RULE = ("S-DUMP: machine states set through the verif-hooks setters - program registers 0..2^64-1, 0-4 memory clusters "
         "(unaligned first address, rows far apart, within 40 bytes of 2^64, holes inside rows), 0-6 register banks with 1-12 "
